@@ -148,12 +148,12 @@ def run(chk: common.Check):
                                                                    "pdb_text": text if len(text) < 250000 else None}))
                     break
         # ---- relation symmetric; star iff partner
-        for cname in mol1.conformation_names:
+        for cname in list(mol1.conformation_names) + ["AVR"]:      # (the average is what the .pka file prints)
             conf = mol1.conformations[cname]
             for g in conf.groups:
                 for h in g.non_covalently_coupled_groups:
                     if g not in h.non_covalently_coupled_groups:
-                        found.append(("coupling-asymmetric", f"{name}: {g.label} lists {h.label} as coupled but not vice versa", {"case": name}))
+                        found.append(("coupling-asymmetric", f"{name} ({cname}): {g.label} lists {h.label} as coupled but not vice versa", {"case": name, "conformation": cname}))
                 for rpg in (False, True):
                     s = g.get_determinant_string(rpg)
                     first = s.split("\n")[0] if s else ""
